@@ -5,7 +5,7 @@ from vfw.core import obligation, get_program, summarize_paths
 from mirsym.engine import Engine
 from mirsym.values import *
 from mirsym.tys import *
-from .vmabs import VmWorld, AbsUVec, install_gc_refs
+from .vmabs import VmWorld, AbsUVec, install_gc_refs, kind_of
 
 
 def _finish(res, e, results, prefix):
@@ -333,3 +333,61 @@ def k2_run_fun(res, tier):
             if r.kind in ('oob', 'unreachable', 'ub', 'diverge', 'depth', 'panic'):
                 res.fail(f'C18.K2:{fname}:{r.kind}', f'{fname}: path ends in {r.kind}: {str(r.info)[:200]}', {'path': str(r.info)})
         summarize_paths(res, e, results, lambda r: r.info if isinstance(r.info, dict) else None, key_prefix=f'C18.K2:{fname}:', unwind_ok=False)
+
+
+F27_REPLAY = dict(kind='lay', source='let e = Error("x");\ne.message = 5;\nraise e;\n', bad_exit=[101, 134, -6], note='uncaught error whose message field holds a number')
+
+
+@obligation('C18.K3.print_error_total', 'C18', programs=('vm',), also=('C16',))
+def k3_print_error(res, tier):
+    """Fiber::print_error for an error instance whose fields hold arbitrary values and a fiber with 1..2 frames: the traceback is
+    written without a host panic; every unchecked cast it makes is justified by a test it made itself"""
+    from .vmabs import AbsObj, AbsUVec
+    P = get_program('vm')
+    e = Engine(P, loop_bound=5, timeout_s=120, max_depth=50)
+    W = VmWorld(e, P)
+    W.havoc_objects(e)
+    install_gc_refs(e, exclude=('Fiber',))
+    f = P.lookup('fiber::Fiber::print_error')
+    e.allow_havoc(r'write_fmt$', r'^<.* as (std::io::|core::fmt::)?Write>::\w+$', r'^(laythe_core::)?(chunk::)?Chunk::get_line$', r'^(std::borrow::|alloc::borrow::)?ToOwned::to_owned$',
+                  r'^<.* as (std::borrow::|alloc::borrow::)?ToOwned>::to_owned$', r'^<str as .*PartialEq.*>::(eq|ne)$', r'^<.* as (std::cmp::|core::cmp::)?PartialEq.*>::(eq|ne)$')
+    # a frame's ip points into the instructions of the frame's function (C04.K2 / C06.K1): the distance is some offset
+    e.model(r'^(std|core)::ptr::(mut_ptr|const_ptr)::<impl \*(mut|const) .*>::(offset_from|offset_from_unsigned|sub_ptr)$',
+            lambda e_, a, c: z3.BitVec(e_.fresh_name('ip_offset'), 64))
+    # whether a function is the script only selects the wording of its traceback line
+    def m_name_eq(e_, a, c):
+        return e_.fork_bool(z3.Bool(e_.fresh_name('name_is_script')))
+    e.model(r'^core::str::traits::<impl (std::cmp::|core::cmp::)?PartialEq for str>::(eq|ne)$', m_name_eq)
+    e.model(r'^<str as (std::cmp::|core::cmp::)?PartialEq>::(eq|ne)$', m_name_eq)
+    fib_sd = P.struct_def('fiber::Fiber')
+    ix = {n: i for i, (n, _) in enumerate(fib_sd.fields)}
+    res.bounds = {'frames': '1..2', 'error fields': 'arbitrary values'}
+    res.assumptions = ['error instances have the fields of Error (message first): classes derived from Error inherit them (C03.K1)']
+
+    def path(e):
+        st = W.fresh_state(e)
+        e.path_state['casts'] = []
+        fiber = st.fiber
+        nfv = z3.BitVec('n_frames', 64)
+        e.add_constraint(z3.And(z3.UGE(nfv, 1), z3.ULE(nfv, 2)))
+        nf = e.concretize(nfv, [1, 2])
+        frames = e.fresh_seq('fiber::call_frame::CallFrame', NameBacking('frames2'), bv(4, 64))
+        fiber.f[ix['frames']] = Cell(AbsUVec(frames, bv(nf, 64)))
+        err = AbsObj(z3.BitVec('error', 64), 'Instance')
+        e.add_constraint(kind_of(err.id) == P.enum_def('laythe_core::object::ObjectKind').vindex['Instance'])
+        e.call(f, [Ref(Cell(fiber)), Ref(Cell(Opaque('dyn Write', 'log'))), err])
+        for name, oid, established, where in e.path_state['casts']:
+            if 'print_error' in str(where):
+                e.check(established, f'print_error: the cast {name} is justified by a test', {'cast': name})
+        e.check(True, 'print_error: returns')
+        return {'frames': nf, 'casts': len(e.path_state['casts'])}
+    results = e.explore(path)
+    for r in results:
+        if r.kind in ('oob', 'unreachable', 'ub', 'diverge', 'depth', 'panic'):
+            s = str(r.info)
+            if r.kind == 'panic' and not ('Expected' in s or 'value.rs' in s):
+                continue
+            res.fail(f'C18.K3:print_error:{r.kind}', f'print_error: path ends in {r.kind}: {s[:200]}', {'path': s}, replay=F27_REPLAY)
+    summarize_paths(res, e, results, lambda r: r.info if isinstance(r.info, dict) else None, key_prefix='C18.K3:', unwind_ok=False)
+    for fd in res.findings:
+        fd.replay = F27_REPLAY
